@@ -47,6 +47,9 @@ CHECKS = {
     'C16': ('two-run symbolic execution of the real rate()/predict_* in one path (original vs rescaled / shifted game) with solver-side hints sqrt(k^2 a) = k sqrt(a), exp(a) = exp(a2) exp(a-a2); z3 equality of result terms; sat models replayed on float code',
             'For symbolic k in [1e-3, 1e3]: rate() of PL/BT-full/BT-part is homogeneous of degree 1 and all three predictions of all five models are scale-free; for symbolic shift s with equal team sizes: posterior mu shifts by s, sigma and predictions are unchanged, all five models; listed shapes and outcomes.',
             TRUST, '6/C16'),
+    'C17': ('forward-error symbolic execution of the real phi_major source (z3 reals with rounding variables, certified grid enclosures) + symbolic execution of the real v/w/vt/wt with analytic axiom instances (Mills, truncated-mean) per path; sat models replayed against mpmath',
+            'CDF: relative error <= 1e-12 on [-37.5, 38] under the standard model of floating point with 4-ulp libm. v, w, vt, wt for x in [-40,40], t in [1e-8,1e-2]: defined, v >= 0, w >= 0, vt and exact V~ in [-t-x, t-x] (so within 2t), v within 2% of V on its asymptotic branch, guards fire exactly at the documented constants. Not claimed: w, wt <= 1, the 1e-6 / 20t float-accuracy clauses, dense sweeps.',
+            TRUST + ' Mode E assumes the standard FP model without underflow and 4-ulp erf/erfc.', '6/C17'),
     'C18': ('symbolic execution of the real comparison dunders / ordinal() on exact binary64 proxies (z3 QF_FP, RNE) + per-path equivalence with the ordinal specification; foreign operands via lazy kind proxy; sorted() paths',
             'For each of the five rating classes and each of < <= > >= == != over ALL finite doubles mu, sigma: result <=> the corresponding comparison of mu-3*sigma (== : both fields equal); ordinal(z) = mu - z*sigma for symbolic z; foreign operands refused with ValueError / unequal; sorted() of 3 (4) ratings is ordinal-monotone on every path.',
             'Trusted: z3 FloatingPoint theory as IEEE-754 binary64 = CPython float. No real-number abstraction here.', '6/C18'),
